@@ -28,7 +28,7 @@ RULE = ("Rebalancing.make_trades on generated (holdings, targets, quotes, thresh
 ASSUMPTIONS = ["ties within 1e-12 relative of the threshold / 1e-9 of an integer lot accept both outcomes",
                "whole-lot mode: the threshold is compared with the weight of the imbalance itself (untruncated), as the property words it"]
 REQUIRED = ["C12:exact-threshold", "C12:trade-set", "C12:trade-wellformed", "C12:fractional-quantity", "C12:whole-lot-truncation", "C12:no-exception"]
-REQUIRED_CATS = ["via-portfolio-space", "whole-lot-with-fractional-holding", "mode:tiny", "mode:exact-at", "mode:exact-notch-below", "mode:exact-notch-above", "mode:at", "mode:below", "mode:above", "mode:sublot", "mode:absent-held", "whole-lot", "fractional"]
+REQUIRED_CATS = ["previewed-on-another-state", "via-portfolio-space", "whole-lot-with-fractional-holding", "mode:tiny", "mode:exact-at", "mode:exact-notch-below", "mode:exact-notch-above", "mode:at", "mode:below", "mode:above", "mode:sublot", "mode:absent-held", "whole-lot", "fractional"]
 REQUIRED_HITS = ["Rebalancing.make_trades"]
 TECHNIQUE = "runtime monitoring: reference model of the stated filtering rule compared with Rebalancing.make_trades on boundary-biased inputs"
 LEVEL_TEXT = ("Exploration with boundary-biased generation: the real make_trades is compared with an independent evaluation of the "
@@ -165,6 +165,17 @@ def case(ctx, i, tier):
     ctx.sample = {"contracts": [gen.describe_contract(c) for c in cs], "quotes": {c.symbol: q[c] for c in cs},
                   "holdings": {c.symbol: hold.get(c, 0.0) for c in cs}, "nlv": nlv, "threshold": thr, "measure": measure,
                   "fractional": frac, "targets": {k.symbol: v for k, v in zip(keys, tgt)}, "modes": {c.symbol: m for c, m in modes.items()}}
+    if rng.random() < 0.3:
+        # the request was PREVIEWED earlier against another account state (another broker on the same
+        # exchange with other holdings); what counts is the state it is finally computed against
+        try:
+            pb = Broker(ex, deposit=rng.choice([1e4, 1e6]), fees=fees)
+            c0 = rng.choice(cs)
+            pb.transact(Trade(t, c0, float(rng.randint(1, 3)), *q[c0], fees))
+            r.make_trades(pb)
+        except Exception:
+            pass
+        ctx.cat("previewed-on-another-state")
     try:
         trades = r.make_trades(b)
     except Exception as e:
